@@ -10,7 +10,8 @@ import time
 sys.path.insert(0, os.path.join(os.path.dirname(os.path.dirname(os.path.abspath(__file__))), "lib"))
 import vcheck  # noqa: E402
 
-VARIANT_FINDING = {2: "F1", 3: "C04-N1", 4: "C04-N2", 5: "C04-N3", 6: "F2"}
+# open findings that the transcription I reproduces: variant of Run.v in which that one is repaired as well
+VARIANT_FINDING = {3: "C04-N1", 5: "C04-N3"}
 
 
 # ------------------------------------------------------------------------------------------------
@@ -79,7 +80,7 @@ def pred_n1(case, rec, exp):
     if n is None:
         return False
     ops = _ops(case)
-    for i, o in enumerate(ops[:n + 1]):
+    for i, o in enumerate(ops[:n]):          # the accessor-define itself agrees with S; the divergence comes later
         if o.get("t") == "def" and _is_acc_desc(o.get("d")):
             # an earlier writable data property under the same key of the same object
             for p in ops[:i]:
@@ -99,7 +100,7 @@ def pred_n3(case, rec, exp):
     if n is None:
         return False
     ops = _ops(case)
-    for i, o in enumerate(ops[:n + 1]):
+    for i, o in enumerate(ops[:n]):          # the {writable}-define itself agrees with S; the divergence comes later
         d = o.get("d") or {}
         if o.get("t") == "def" and "v" not in d and d.get("w", 0) != 0 and not _is_acc_desc(d):
             for p in ops[:i]:
@@ -122,12 +123,20 @@ def pred_f2(case, rec, exp):
 
 
 def pred_n4(case, rec, exp):
-    """String object + integer-number key >= length: getOwnPropIdx reports no own property"""
+    """String object + integer-number key >= length: getOwnPropIdx reports no own property.  Shape: up to the
+    diverging step there is a getOwnPropertyDescriptor with a number key on a String object, or a Reflect.set
+    with a number key (the only route to setForeignIdx) while a String object is part of the case"""
     n = _first_bad(exp)
-    if n is None or "string" not in case.get("kinds", []):
+    kinds = case.get("kinds", [])
+    if n is None or "string" not in kinds:
         return False
     for o in _ops(case)[:n + 1]:
-        if o.get("f", 0) == 1 and o.get("k", 0) < 6 and o.get("t") in ("own", "set"):
+        if o.get("f", 0) != 1 or o.get("k", 0) >= 6:
+            continue
+        oi = o.get("o", 0)
+        if o.get("t") == "own" and oi < len(kinds) and kinds[oi] == "string":
+            return True
+        if o.get("t") == "set" and o.get("s") == 2:
             return True
     return False
 
@@ -196,19 +205,26 @@ def split_expected(exp, n):
     return [exp[a:b] for a, b in zip(starts, starts[1:] + [len(exp)])]
 
 
-def known_entry(ctx, case, rec, exp):
+def known_entry(ctx, case, rec, exp, allowed=None):
     preds = ctx.cfg.get("predicates", {})
     for k in vcheck.load_known()["open"]:
+        if allowed is not None and k["id"] not in allowed:
+            continue
         if k["property"] == ctx.pid and k["predicate"] in preds and preds[k["predicate"]](case, rec, exp):
             return k
     return None
 
 
-def report(ctx, binp, recs, idxs, source, budget_s, minimal=False):
+def report(ctx, binp, recs, idxs, source, budget_s, minimal=False, allowed=None):
     """classify the listed records the framework's way: a case cut at its first diverging step that the narrow
     predicate of an open finding recognises => KNOWN-FINDING; anything else is shrunk and handed to the generic
     reporter (=> VIOLATION unless the shrunk case is recognised)."""
     if not idxs:
+        return
+    chunk = ctx.cfg.get("shard", 100)       # coq_eval returns the expected text of one shard only
+    if len(idxs) > chunk:
+        for a in range(0, len(idxs), chunk):
+            report(ctx, binp, recs, idxs[a:a + chunk], source, budget_s, minimal, allowed)
         return
     cases = [recs[i]["case"] for i in idxs]
     rr = vcheck.harness_replay(ctx, binp, cases, tag="cut")
@@ -226,8 +242,8 @@ def report(ctx, binp, recs, idxs, source, budget_s, minimal=False):
         n = _first_bad(e)
         if not minimal and n is not None and n + 1 < len(_ops(c)):
             c = dict(c, ops=_ops(c)[:n + 1])
-        k = known_entry(ctx, c, rr[j], e) if exps else None
-        if k is not None and (ctx.tier == "quick" or minimal):
+        k = known_entry(ctx, c, rr[j], e, allowed) if exps else None
+        if k is not None:
             if k["id"] not in ctx.c04_printed:
                 ctx.c04_printed.add(k["id"])
                 line = "KNOWN-FINDING: property=%s %s [%s]" % (ctx.pid, k["what"], k["id"])
@@ -278,8 +294,10 @@ def classify(ctx, binp, recs, source):
     minimal = source == "corpus"
     # 1. what the transcription of goja does not explain: reported (a known finding outside I, or a violation)
     un = sorted(unexplained, key=lambda j: len(sub[j]["case"].get("ops", [])))
-    lim = len(un) if minimal else (2 if ctx.tier == "quick" else 8)
-    report(ctx, binp, sub, un[:lim], source, budget, minimal)
+    # (every one of them is examined; only findings that I does not model can account for them)
+    modelled = set(VARIANT_FINDING.values())
+    outside_I = {k["id"] for k in vcheck.load_known()["open"] if k["property"] == ctx.pid and k["id"] not in modelled}
+    report(ctx, binp, sub, un[:4000], source, budget, minimal, outside_I)
     # 2. one representative per recorded finding: the narrow predicate must recognise it
     reps = []
     for f, js in sorted(attributed.items()):
@@ -287,7 +305,7 @@ def classify(ctx, binp, recs, source):
             continue        # already confirmed by predicate in this run; further cases are attributed by the model only
         reps.append(min(js, key=lambda j: len(sub[j]["case"].get("ops", []))))
         ctx.c04_seen.add(f)
-    report(ctx, binp, sub, sorted(set(reps)), source, budget, minimal)
+    report(ctx, binp, sub, sorted(set(reps)), source, budget, minimal, modelled)
     return len(bad)
 
 
@@ -344,7 +362,7 @@ CFG = {
              "Reflect.*, Go API); observed: every result, every accessor call (function, this, argument), and full "
              "descriptor dumps of all objects (Reflect.ownKeys order, isExtensible, prototype) at random points and at the end; "
              "non-trivial = at least one operation was refused (false / TypeError); distinct = by hash of the case"),
-    "theorem_names": ["define_eq_spec_partial", "define_guard_exact", "define_eq_spec_repaired", "define_wf_partial",
+    "theorem_names": ["define_eq_spec", "define_eq_spec_repaired", "define_wf_partial", "goja_set_only_receiver",
                       "essential_invariants", "nonextensible_invariants", "frozen_is_final", "ownkeys_order",
                       "ownkeys_unique", "ownkeys_same_set", "idxcount_exact", "set_only_receiver"],
     "allowed_axioms": [],
@@ -364,26 +382,26 @@ CFG = {
         "the implementation is tied to the model only on the generated histories (correspondence), not by proof",
     ],
     "predicates": {
-        "C04.define_writable_only_on_nonconfigurable_accessor": pred_f1,
-        "C04.reflect_set_symbol_receiver_is_ancestor": pred_f2,
+        # F1, F2, C04-N2 are repaired in /repo (known/C04.json "fixed"): their recognisers are retired, so that a
+        # regression is a VIOLATION (corpus/C04/known_F1|F2|N2.jsonl replay first on every run)
         "C04.data_to_accessor_keeps_writable": pred_n1,
-        "C04.define_undefined_accessor_on_nonconfigurable_data": pred_n2,
         "C04.accessor_to_data_by_writable_keeps_getter": pred_n3,
         "C04.string_object_numeric_key_beyond_length": pred_n4,
     },
     "manifest": {
-        "text": ("proof: (1) goja's _defineOwnProperty decision tree, transcribed, equals ValidateAndApplyPropertyDescriptor for every "
-                 "existing property and every partial descriptor outside two exactly characterised regions (F1, N2: refuted by "
-                 "witness), and everywhere once five one-line repairs are switched on; the valueProperty representation invariant "
-                 "is kept outside two further exact regions (N1, N3); (2) for every history of ordinary-object operations from any "
+        "text": ("proof: (1) goja's _defineOwnProperty decision tree, transcribed from the current tree, equals "
+                 "ValidateAndApplyPropertyDescriptor for every existing property satisfying the valueProperty representation "
+                 "invariant and every partial descriptor (the tree before the F1/N2 repairs differed exactly in two characterised "
+                 "regions); that invariant is kept outside two exact regions (open findings N1, N3: refuted by witness) and "
+                 "everywhere once those two one-line repairs are switched on; (2) for every history of ordinary-object operations from any "
                  "heap a non-configurable property is never deleted, keeps kind/enumerability/get/set and, if non-writable, its "
                  "value; a non-extensible object keeps its prototype and gains no key; a frozen object never changes; (3) for "
                  "every history of add/delete/enumerate goja's lazily sorted propNames equals OrdinaryOwnPropertyKeys, keys unique, "
-                 "idxPropCount exact; (4) OrdinarySet touches only the receiver (goja's setForeignSym refuted: F2). 20 theorems, no "
-                 "axioms. Tied to /repo on every run by 1500 (quick) / 100000 (thorough) generated histories over 9 object kinds, "
+                 "idxPropCount exact; (4) OrdinarySet and goja's setOwn/setForeign walk touch only the receiver, for all heaps and key "
+                 "kinds (before the F2 repair: only for non-symbol keys). 21 theorems, no axioms. Tied to /repo on every run by 1500 (quick) / 100000 (thorough) generated histories over 9 object kinds, "
                  "18 keys of 4 kinds and 4 API surfaces, compared step by step (results, accessor events, descriptor dumps) with "
-                 "the models evaluated by vm_compute; every disagreement is classified against the transcription of goja with "
-                 "single repairs toggled."),
+                 "the models evaluated by vm_compute; every disagreement with S is classified against the transcription of goja with "
+                 "single repairs toggled, and every one the transcription does not explain is examined individually."),
         "note": ("trusted: Coq kernel + vm_compute; the hand transcriptions coq/C04/Model.v of ECMA-262 10.1 (S) and of "
                  "object.go/value.go/builtin_object.go (I); the Go harness and its surface conventions; exotic kinds (function, "
                  "class, arguments, String, bound) are compared with the ordinary model on pool keys only; arrays, typed arrays, "
